@@ -2,6 +2,7 @@ package engine
 
 import (
 	"fmt"
+	"os"
 	"go/token"
 	"go/types"
 	"strings"
@@ -464,8 +465,32 @@ func (e *Exec) verifIntrinsic(fr *frame, st *State, name string, fn *ssa.Functio
 			cl := h.con.Ensures[k]
 			p := token.NoPos
 			n0 := len(e.Obls)
-			if len(h.retPaths) >= 2 && len(h.retPaths) <= 12 && smt.HasQuant(args[1]) {
-				e.checkPerReturn(st, "post", args[1], clauseLabel(h.con.Ensures, k), h.retPaths)
+			var paths []*smt.Term
+			if smt.HasQuant(args[1]) {
+				if d := dnfPaths(st.Path, 48); len(d) >= 2 {
+					for _, c := range d {
+						paths = append(paths, smt.And(c...))
+					}
+				}
+			}
+			var conds []*smt.Term
+			if len(paths) < 2 && smt.HasQuant(args[1]) {
+				for _, c := range st.Splits {
+					if c.Op != "or" && c.Op != "and" {
+						conds = append(conds, c)
+					}
+				}
+				if os.Getenv("GOVC_DEBUG_SPLIT") != "" {
+					fmt.Fprintf(os.Stderr, "split %s: %d atoms of %d\n", h.con.Display(), len(conds), len(st.Splits))
+				}
+				if len(conds) > 6 {
+					conds = nil
+				}
+			}
+			if len(paths) >= 2 {
+				e.checkPerReturn(st, "post", args[1], clauseLabel(h.con.Ensures, k), paths)
+			} else if len(conds) >= 1 {
+				e.checkCaseSplit(st, "post", args[1], clauseLabel(h.con.Ensures, k), conds)
 			} else {
 				e.check(st, "post", args[1], p, clauseLabel(h.con.Ensures, k))
 			}
